@@ -6,12 +6,15 @@ PLAN = {
         "text": "The registry's representation invariant (three shard vectors of equal power-of-two length, mask = len-1) is established by the constructors and makes every unchecked index in bounds for every 64-bit hash; the selected shard depends only on the key's hash and kind. The get-or-create / delete / get glue is proved, over assumed map and lock specifications, to operate on the entry of the key's equality class present under the lock at that moment, creating storage only when absent.",
         "note": "hashbrown raw-entry API, std RwLock and Key's Hash/Eq consistency (C03) are assumed; Kani cannot execute hashbrown (measured), so map behaviour itself is not verified; racing creators/deleters are covered only through 'the map under a freshly acquired lock is arbitrary'; visit/retain/clear/get_*_handles iteration is hashbrown's contract.",
     },
-    "min_obligations": {"quick": 2, "thorough": 2},
+    "min_obligations": {"quick": 15, "thorough": 15},
     "assumptions": [
         "std::thread::available_parallelism is stubbed by any power of two <= 8 (next_power_of_two makes the real value a power of two)",
         "hashbrown HashMap (raw_entry, raw_entry_mut, remove_entry, or_insert_with, iter, retain, clear) behaves as documented; not executed",
         "RwLock is a lock",
         "K: Hashable returns a hash consistent with Eq (for metrics::Key: property C03)",
+    ],
+    "verus": [
+        {"template": "registry.verus.rs", "tier": "quick", "rlimit": 50, "min_functions": 13},
     ],
     "kani": [{
         "crate": "metrics-util", "parallel": 4,
